@@ -597,7 +597,9 @@ func extraBodyPreserver(c *Ctx, r *Report, rule string) {
 		if sc == nil || !c.inRepo(sc) || sc.Signature.Results().Len() != 2 {
 			return
 		}
-		if sl, ok := sc.Signature.Results().At(0).Type().Underlying().(interface{ Elem() interface{ String() string } }); ok {
+		if sl, ok := sc.Signature.Results().At(0).Type().Underlying().(interface {
+			Elem() interface{ String() string }
+		}); ok {
 			_ = sl
 		}
 		if sc.Signature.Results().At(0).Type().String() == "[]byte" && sc.Signature.Results().At(1).Type().String() == "error" {
